@@ -199,9 +199,17 @@ func c11(args []string) {
 			jobs = append(jobs, &c11Job{kind: "runto", tc: &tc, target: []string{target}, cfg: Cfg{Buf: 3, Procs: 2}, label: "RunTo then Run (outputs in ../ directories)"})
 		}
 	}
+	// directed topologies: a task whose output is a directory, and a gathering task with an ordinary and a joined
+	// in-port (which in-port the library looks at first is a matter of map order, so that one is repeated)
+	for _, k := range []string{"dirout", "gather"} {
+		for r := 0; r < map[string]int{"dirout": 2, "gather": c.Pick(8, 24)}[k]; r++ {
+			tc := topoCase{k, gen.ShapePlain, false, 2}
+			jobs = append(jobs, &c11Job{kind: "runto", tc: &tc, target: []string{"A"}, cfg: Cfg{Buf: 3, Procs: 2}, label: "RunTo A then Run (" + k + ")"})
+		}
+	}
 	// directed topologies: crash, cleanup, resume
 	var tcs []topoCase
-	for _, k := range []string{"chain", "diamond", "twoout", "params"} {
+	for _, k := range []string{"chain", "diamond", "twoout", "params", "dirout"} {
 		for _, g := range []bool{false, true} {
 			tcs = append(tcs, topoCase{k, gen.ShapePlain, g, 3})
 		}
